@@ -360,8 +360,23 @@ pub fn agent_run(ctx: &mut Ctx, hist: &History, w: &World, junos: Junos, irr_ref
     junos.running = w.policies.clone();
     let instance = w.instance.clone();
     let delays = vec![0, 0, 0, 1, 3, 20, 200];
+    // half of the runs: the first poll of every task the agent spawns is delayed by a seeded 0-3 ms of
+    // virtual time, so that the order in which its tasks reach the session's locks varies (as it does
+    // on a multi-threaded runtime)
+    let chaos = (ctx.pick(2) == 1).then(|| 1 + ctx.pick(1 << 30) as u64);
+    if chaos.is_some() {
+        ctx.count("sched.spawned_tasks_start_in_seeded_order");
+    }
     let (result, junos) = with_shared(ctx, junos, delays, |sh| {
         let conn = connector(sh.clone());
+        shim::chaos::set(chaos);
+        struct ChaosOff;
+        impl Drop for ChaosOff {
+            fn drop(&mut self) {
+                shim::chaos::set(None);
+            }
+        }
+        let _off = ChaosOff;
         // a panic of the agent outside its spawned tasks ends the process: for the oracles that is a
         // run that failed without a clean error ("the agent panicked: ...")
         let r = match std::panic::catch_unwind(std::panic::AssertUnwindSafe(|| hist.rt.block_on(async move { agent::verif::run_once(conn, "irrd.sim", 43, &instance).await }))) {
@@ -1171,7 +1186,7 @@ const COMPONENTS: &[(&str, &str)] = &[
     ("junos-agent task.rs (Updater::run), netconf/mod.rs (client typestate), policies/{fetch,eval,compare,load}.rs", "real"),
     ("netconf session layer, messages, builders, readers", "real"),
     ("bgpfu-lib query.rs, rpsl, irrc pipeline + parser", "real"),
-    ("tokio runtime, timers", "real (current_thread, paused clock, seeded)"),
+    ("tokio runtime, timers", "real (current_thread, paused clock, seeded); in half of the runs tokio::spawn as seen by the agent delays the first poll of the new task by a seeded 0-3 virtual ms (shim/tokio)"),
     ("netconf transport", "stub: in-memory with seeded virtual delays per send and per reply"),
     ("irrc TCP socket", "stub: in-memory, synchronous, seeded short reads"),
     ("tokio::task::block_in_place", "stub: direct call (tokio shim)"),
